@@ -183,16 +183,40 @@ func (g *generator) genFunc(idx int) {
 		body = append(body, &StaticDecl{V: v, Init: int64(g.r.Intn(5))})
 		sc.read[TInt] = append(sc.read[TInt], v)
 		sc.assign[TInt] = append(sc.assign[TInt], v)
-		// make sure it is modified and visible
-		switch g.r.Intn(4) {
+		// make sure it is modified and visible; every write form the interpreter may route
+		// through a different assignment path (++, fused add, compound, general expression)
+		k := &IntLit{int64(1 + g.r.Intn(3))}
+		switch g.r.Intn(9) {
 		case 0:
 			body = append(body, &IncDec{V: v, Inc: true})
 		case 1:
-			body = append(body, &Assign{V: v, Op: "=", E: &Bin{Op: "+", L: v, R: &IntLit{int64(1 + g.r.Intn(3))}, T: TInt}})
+			body = append(body, &Assign{V: v, Op: "=", E: &Bin{Op: "+", L: v, R: k, T: TInt}})
 		case 2:
-			body = append(body, &Assign{V: v, Op: "+=", E: &IntLit{int64(1 + g.r.Intn(3))}})
+			body = append(body, &Assign{V: v, Op: "+=", E: k})
 		case 3:
 			body = append(body, &IncDec{V: v, Inc: true, Prefix: true})
+		case 4:
+			body = append(body, &Assign{V: v, Op: "=", E: &Bin{Op: "-", L: v, R: k, T: TInt}})
+		case 5:
+			body = append(body, &Assign{V: v, Op: "-=", E: k})
+		case 6:
+			body = append(body, &Assign{V: v, Op: "=", E: &Bin{Op: "-", L: &Bin{Op: "*", L: v, R: &IntLit{2}, T: TInt}, R: k, T: TInt}})
+		case 7:
+			body = append(body, &IncDec{V: v, Inc: false})
+		case 8:
+			body = append(body, &Assign{V: v, Op: "=", E: &Tern{C: &Bin{Op: ">", L: v, R: &IntLit{6}, T: TBool}, A: &IntLit{0}, B: &Bin{Op: "+", L: v, R: &IntLit{2}, T: TInt}, T: TInt}})
+		}
+		if g.r.Intn(2) == 0 {
+			// a string-typed static as well
+			sv := &Var{Name: "ss", T: TStr}
+			body = append(body, &StaticDecl{V: sv, Init: 0, StrInit: g.word(), IsStr: true})
+			sc.read[TStr] = append(sc.read[TStr], sv)
+			sc.assign[TStr] = append(sc.assign[TStr], sv)
+			if g.r.Intn(2) == 0 {
+				body = append(body, &Assign{V: sv, Op: ".=", E: &StrLit{g.word()}})
+			} else {
+				body = append(body, &Assign{V: sv, Op: "=", E: &Bin{Op: ".", L: sv, R: &StrLit{g.word()}, T: TStr}})
+			}
 		}
 		g.use("static")
 	}
